@@ -108,10 +108,10 @@ EXPORT errno_t _strerror_s_chk(char *dest, rsize_t dmax, errno_t errnum,
     if (likely(len < dmax)) {
         if (errnum >= ESNULLP && errnum <= ESLAST) {
             const char *tmpbuf = errmsgs_s[errnum - ESNULLP];
-            strcpy_s(dest, dmax, tmpbuf);
+            _strcpy_s_chk(dest, dmax, tmpbuf, destbos);
         } else {
             const char *tmpbuf = strerror(errnum);
-            strcpy_s(dest, dmax, tmpbuf);
+            _strcpy_s_chk(dest, dmax, tmpbuf, destbos);
         }
     } else if (dmax > 3) { /* truncate */
         const char *tmpbuf = (errnum >= ESNULLP && errnum <= ESLAST)
